@@ -9,13 +9,13 @@ from hypothesis import strategies as st
 from .. import absval, gens, msgcheck, rfc4515
 from ..engine import QUICK, THOROUGH, Ctx, Part, Property, Violation
 
-EDIT_ALPHABET = list("()&|!=*\\:;~<>.- \n\r\t\x00\x7fa01é\udc80\udcff'\",")
+EDIT_ALPHABET = list("()&|!=*\\:;~<>.- \n\r\t\x00\x7fa01é\udc80\udcff'\",\ud800\udc00")
 _ALPHA = st.one_of(
     st.sampled_from(list("()&|!=*\\:;~<>.-")),
     st.sampled_from(list("()&|!=*\\:;~<>.- \n\r\t\x00\x7f")),
     st.sampled_from(list("abcdnDNxyz0123456789")),
-    st.sampled_from(["\udc80", "\udcff", "\udcc3", "é", "€", "\U0001f600"]),
-    st.characters(exclude_categories=["Cs"]),
+    st.sampled_from(["\udc80", "\udcff", "\udcc3", "é", "€", "\U0001f600", "\ud800", "\udbff", "\udc00", "\udc7f", "\udfff"]),
+    st.characters(),
 )
 
 
@@ -50,7 +50,11 @@ def check_text(text: str, ctx: Ctx, label: str = "") -> t.List[Violation]:
             ctx.nontrivial(text)
         out = []
         try:
-            total = len(e.filter.encode("utf-8", "surrogateescape"))
+            try:
+                total = len(e.filter.encode("utf-8", "surrogateescape"))
+            except UnicodeEncodeError:
+                # a lone surrogate that is not an escaped byte: there are no parser units; use the longest reading
+                total = len(e.filter.encode("utf-8", "surrogatepass"))
             off, ln = e.offset, e.length
             if type(off) is not int or type(ln) is not int:
                 out.append(Violation("error-span:not-int", f"{text!r}: offset {off!r} length {ln!r}"))
@@ -122,7 +126,12 @@ class Edits(Part):
         return st.fixed_dictionaries(
             {
                 "s": st.one_of(rfc4515.sentence(max_leaves=3, decorate=False), rfc4515.sentence(max_leaves=3)),
-                "edits": st.lists(st.tuples(st.sampled_from(["ins", "del", "rep"]), st.integers(0, 10**6), st.sampled_from(EDIT_ALPHABET)), min_size=1, max_size=2),
+                "edits": st.lists(st.one_of(
+                    st.tuples(st.sampled_from(["ins", "del", "rep"]), st.integers(0, 10**6), st.sampled_from(EDIT_ALPHABET)),
+                    # a (possibly malformed) escape: backslash + two characters from a whitespace/hex/punctuation alphabet
+                    st.tuples(st.just("ins"), st.integers(0, 10**6),
+                              st.text(st.sampled_from(list(" \t\r\n\x0b\x0c0123456789abcdefABCDEFgG+-xX\x00*()\\")), min_size=2, max_size=2).map(lambda s: "\\" + s)),
+                ), min_size=1, max_size=2),
             }
         )
 
@@ -140,6 +149,39 @@ class Edits(Part):
 
     def sample(self, case: t.Any) -> t.Any:
         return {"sentence": case["s"]["text"][:120], "edits": [list(e) for e in case["edits"]]}
+
+
+class Escapes(Part):
+    """Items whose value components are built from literal characters, valid escapes and MALFORMED escapes
+    (backslash + 0-2 characters from a whitespace / hex / punctuation alphabet), in every item shape - in particular
+    as a whole component of a substring filter, where a wrongly accepted escape changes the shape of the result."""
+
+    name = "escapes"
+    examples = {QUICK: 600, THOROUGH: 20000}
+
+    def strategy(self, tier: str) -> t.Any:
+        odd = st.sampled_from(list(" \t\r\n\x0b\x0c\x000123456789abcdefABCDEFgGxX+-*()\\é\udc80"))
+        atom = st.one_of(
+            st.sampled_from(list("ab1 ")),
+            st.sampled_from(["\\41", "\\2a", "\\2A", "\\00", "\\5c", "\\28"]),
+            st.text(odd, min_size=2, max_size=2).map(lambda x: "\\" + x),
+            st.text(odd, min_size=0, max_size=1).map(lambda x: "\\" + x),
+            # escapes made of whitespace only / whitespace mixed with hex digits (lenient hex decoders skip blanks)
+            st.text(st.sampled_from(list(" \t\r\x0b\x0c\n")), min_size=2, max_size=2).map(lambda x: "\\" + x),
+            st.text(st.sampled_from(list(" \t0123456789abcdefABCDEF")), min_size=2, max_size=2).map(lambda x: "\\" + x),
+            st.sampled_from(["\\0x", "\\+1", "\\-1", "\\1_", "\\_1", "\\٠٠", "\\４１", "\\a\udc80"]),
+        )
+        comp = st.one_of(atom, st.lists(atom, max_size=3).map("".join))
+        value = st.one_of(comp, st.lists(comp, min_size=2, max_size=4).map("*".join))
+        head = st.sampled_from(["cn=", "cn>=", "cn~=", "cn:=", "cn:dn:2.5.13.2:=", ":caseExactMatch:=", "o;lang-en="])
+        item = st.tuples(head, value).map(lambda hv: "(" + hv[0] + hv[1] + ")")
+        return st.one_of(item, item.map(lambda x: "(&" + x + "(a=b))"), item.map(lambda x: "(!" + x + ")"))
+
+    def check(self, case: t.Any, ctx: Ctx) -> t.List[Violation]:
+        return check_text(case, ctx)
+
+    def sample(self, case: t.Any) -> t.Any:
+        return case[:200]
 
 
 class AllEdits(Part):
@@ -233,14 +275,15 @@ PROP = Property(
         "Generated: (i) arbitrary text over an alphabet biased to ( ) & | ! = * \\ : ; ~ < > . -, digits, letters, space, "
         "\\n \\r \\t NUL DEL, non-ASCII and the lone surrogates U+DC80-U+DCFF the library uses for raw bytes, free-form "
         "and filter-shaped; (ii) 1-2 single-character edits (insert/delete/replace, 30-symbol alphabet) of grammar "
-        "sentences, and ALL single edits of 10 (thorough: 14) fixed sentences; (iii) unbalanced and deep inputs "
+        "sentences (incl. inserted well- and ill-formed escapes), and ALL single edits of 10 (thorough: 14) fixed sentences; items whose value "
+        "components mix literals, valid escapes and malformed escapes (backslash + 0-2 odd characters) in every item shape; (iii) unbalanced and deep inputs "
         "'(op' * n + core + ')' * m for n, m up to 20000. Oracle: the outcome is a filter or FilterSyntaxError (a "
         "ValueError) with 0 <= offset, 0 <= length, offset+length <= len(e.filter in UTF-8/surrogateescape units); on "
         "acceptance every attribute description and matching rule passes an independent RFC 4512 scanner (single-arc "
         "OIDs tolerated: pinned by test_attribute_parsing) and from_string(str(result)) projects to the same tree. "
         "Non-trivial = input contains '=' (reaches the item parser) or is accepted or escapes; distinct by text."
     ),
-    parts=[Texts(), Edits(), AllEdits(), Deep(), FuzzFromString()],
+    parts=[Texts(), Edits(), Escapes(), AllEdits(), Deep(), FuzzFromString()],
     assumptions=["offsets are judged in the units the parser works in (most permissive reading of 'inside the input')"],
     selftest=_selftest,
     technique="property-based fuzzing of the text parser (random text, grammar-sentence edits, deep nesting) + exhaustive single-edit enumeration",
